@@ -500,6 +500,11 @@ def rule_raise(ctx, rep):
                 if entry is None:
                     # the reviewed refusal may have moved into a helper of the same class / module
                     entry = owner_level.get((_owner(fi.short), what))
+                if entry is None and fi.cls is not None:
+                    # ... or the class itself was moved to another module of the package (and re-exported where it was)
+                    for (own, wh), e_ in owner_level.items():
+                        if wh == what and own.split('.')[-1] == fi.cls.name and model.has_cls(own) and model.cls(own) is fi.cls:
+                            entry = e_
                 if entry is None:
                     # ... or into a module-level helper that only functions of the reviewed owner call
                     owners, seen_, todo = set(), {fi.qualname}, [fi]
